@@ -2,6 +2,7 @@ package main
 
 import (
 	"encoding/json"
+	"go/token"
 	"flag"
 	"fmt"
 	"os"
@@ -179,6 +180,10 @@ func cmdCheck(args []string) int {
 	nq := 0
 	for ti, r := range results {
 		for oi, o := range r.Obls {
+			if o.Vacuous {
+				o.Status = "failed"
+				continue
+			}
 			if o.Trivial {
 				o.Status = "proved"
 				continue
@@ -207,7 +212,11 @@ func cmdCheck(args []string) int {
 			wg.Add(1)
 			go func(ti, oi int, o *Obligation, script, weak string) {
 				defer wg.Done()
-				res := Solve2(script, weak, smtDir, fmt.Sprintf("t%d_o%d", ti, oi), timeout)
+				to := timeout
+				if o.Class == "V" {
+					to, weak = 3, "" // reachability: only a refutation matters, and it is immediate when there is one
+				}
+				res := Solve2(script, weak, smtDir, fmt.Sprintf("t%d_o%d", ti, oi), to)
 				mu.Lock()
 				solverSecs += res.Secs
 				mu.Unlock()
@@ -219,6 +228,14 @@ func cmdCheck(args []string) int {
 					o.Status = "failed"
 				default:
 					o.Status = "unknown"
+				}
+				if o.Class == "V" {
+					// reachability: a model (or no refutation) is the good outcome, a refutation means vacuity
+					if res.Verdict == "unsat" {
+						o.Status = "failed"
+					} else {
+						o.Status = "proved"
+					}
 				}
 			}(ti, oi, o, script, weak)
 		}
@@ -352,6 +369,20 @@ func runTarget(p *Loaded, t Target, selRet int) (res *TargetResult) {
 		if !cm.done && x.st != nil {
 			res.Err = "contract harness did not reach the call"
 		}
+	}
+	// vacuity guard: the end of the harness must be reachable under all assumptions made on the
+	// way (requires, callee postconditions, invariants).  "false" must NOT be provable there.
+	if selRet == 0 && x.st != nil && res.Err == "" {
+		x.curFunc = append(x.curFunc, t.Name)
+		saved := x.behavior
+		x.behavior = ""
+		x.oblige("V", "reachable", False(), token.NoPos)
+		x.behavior = saved
+		x.curFunc = x.curFunc[:len(x.curFunc)-1]
+	} else if selRet == 0 && x.st == nil && res.Err == "" {
+		// no path reaches the end of the harness at all
+		x.st = &State{pc: False(), heap: &Heap{m: map[*Object]Value{}}}
+		x.obls = append(x.obls, &Obligation{Name: t.Name + "#V:reachable", Class: "V", Func: t.Name, Label: "reachable", PC: True(), Goal: False(), NHyp: 0, Vacuous: true})
 	}
 	return
 }
